@@ -271,22 +271,11 @@ func (pr propC04) Run(w *World, st *Stats) *Violation {
 			}
 			c := mw.Clone()
 			c.EnumSplits = false
-			c.Extra = map[string]string{"unavail": strings.Join(unavail, ",")}
-			if w.Extra["deep"] == "1" {
-				c.Extra["deep"] = "1"
+			c.Extra = map[string]string{}
+			for k, v := range w.Extra {
+				c.Extra[k] = v // every variant flag of the world stays with the narrowed witness
 			}
-			if w.Extra["fresh_ctx"] == "1" {
-				c.Extra["fresh_ctx"] = "1"
-			}
-			if w.Extra["real_fetcher"] == "1" {
-				c.Extra["real_fetcher"] = "1"
-			}
-			if w.Extra["sibling"] == "1" {
-				c.Extra["sibling"] = "1"
-			}
-			if w.Extra["lazy_get"] == "1" {
-				c.Extra["lazy_get"] = "1"
-			}
+			c.Extra["unavail"] = strings.Join(unavail, ",")
 			return c
 		}
 
@@ -660,10 +649,19 @@ func (pr propC04) Run(w *World, st *Stats) *Violation {
 			// beyond the slice (a variable registered after the context was built)
 			// is not cached. Contexts built before the k variables with the largest
 			// keys were registered make exactly those unavailable.
-			if w.Extra["slice_fetcher"] == "1" && w.EnumSplits && !w.Cfg.Undefined {
+			if w.Extra["slice_fetcher"] == "1" && !w.Cfg.Undefined {
 				eligible := len(w.Cfg.Vars) >= 2
 				for _, v := range w.Cfg.Vars {
 					if !v.Reg || v.Key < 0 || v.Key > 255 {
+						eligible = false
+					}
+				}
+				for _, v := range full.Bind {
+					switch v.T {
+					case "b", "i", "s", "il", "sl", "is", "ss":
+					default:
+						// a raw Go type: the library's fetcher normalises it on
+						// construction, the stub (used for the Eval side) does not
 						eligible = false
 					}
 				}
